@@ -127,6 +127,25 @@ pub fn execute(plan: &Plan, ctx: &mut Ctx) {
     let mut hist_iter = histories.iter_mut();
     let mut adapter: Option<GetterFromHistory<f32, SimClock, E>> = None;
     let mut offset: i64 = 0;
+    // a second adapter over a *real* History: a MotionProfile (rest-to-rest move, always accepted)
+    let mk_profile = || {
+        // rest-to-rest move long enough for a constant-velocity phase: the constructor accepts it
+        let v = plan.getf("mp_vel").abs() + 0.5;
+        let a = plan.getf("mp_acc").abs() + 0.5;
+        let dist = 2.0 * v * v / a + plan.getf("mp_dist").abs() + 1.0;
+        MotionProfile::new(
+            State::new_raw(0.0, 0.0, 0.0),
+            State::new_raw(dist, 0.0, 0.0),
+            Quantity::new(v, MILLIMETER_PER_SECOND),
+            Quantity::new(a, MILLIMETER_PER_SECOND_SQUARED),
+        )
+    };
+    let reference_profile = mk_profile();
+    let n_mp = plan.ops.iter().filter(|o| o.code == "MPNEW").count();
+    let mut profiles: Vec<MotionProfile> = (0..n_mp).map(|_| mk_profile()).collect();
+    let mut prof_iter = profiles.iter_mut();
+    let mut mp_adapter: Option<GetterFromHistory<Command, SimClock, E>> = None;
+    let mut mp_offset: i64 = 0;
     let mut tmin = plan.get("t0");
     let mut tmax = plan.get("t0");
 
@@ -305,6 +324,48 @@ pub fn execute(plan: &Plan, ctx: &mut Ctx) {
                         (m, w) => Some(format!("adapter_constructor|form{}|constructor returned {}, expected offset/err {:?}", form, if m.is_ok() { "Ok".to_string() } else { "Err".to_string() }, w)),
                     }
                 }
+                "MPNEW" => {
+                    let h = prof_iter.next().expect("pre-allocated profile");
+                    let arg = op.arg(1);
+                    let made: Result<GetterFromHistory<Command, SimClock, E>, Error<E>> = match op.arg(0) {
+                        0 => Ok(GetterFromHistory::new_no_delta(h, clock_ref.clone())),
+                        1 => GetterFromHistory::new_start_at_zero(h, clock_ref.clone()),
+                        2 => GetterFromHistory::new_custom_start(h, clock_ref.clone(), Time(arg)),
+                        _ => Ok(GetterFromHistory::new_custom_delta(h, clock_ref.clone(), Time(arg))),
+                    };
+                    let want_off: Result<i64, u8> = match (op.arg(0), clk) {
+                        (0, _) => Ok(0),
+                        (1, Ok(now)) => Ok(-now),
+                        (2, Ok(now)) => Ok(arg - now),
+                        (1 | 2, Err(e)) => Err(e),
+                        _ => Ok(arg),
+                    };
+                    match (made, want_off) {
+                        (Ok(a), Ok(o)) => {
+                            mp_adapter = Some(a);
+                            mp_offset = o;
+                            None
+                        }
+                        (Err(e), Err(w)) if Er::from_rrtk(e) == Er::Other(w) => None,
+                        (m, w) => Some(format!("adapter_constructor|motion_profile_form{}|constructor returned {}, expected offset/err {:?}", op.arg(0), if m.is_ok() { "Ok" } else { "Err" }, w)),
+                    }
+                }
+                "MPGET" => {
+                    if let Some(a) = mp_adapter.as_ref() {
+                        let got = norm(&a.get());
+                        let want = match clk {
+                            Err(e) => Out::Err(Er::Other(e)),
+                            Ok(now) => match <MotionProfile as History<Command, E>>::get(&reference_profile, Time(now + mp_offset)) {
+                                Some(d) => Out::Some(now, d.value.to_val()),
+                                None => Out::None,
+                            },
+                        };
+                        if got != want {
+                            return Some(format!("adapter_get|motion_profile|get returned {}, expected {} (profile queried at now {:?} + offset {})", got.show(), want.show(), clk, mp_offset));
+                        }
+                    }
+                    None
+                }
                 "HDELTA" => {
                     if let Some(a) = adapter.as_mut() {
                         a.set_delta(Time(op.arg(0)));
@@ -455,6 +516,10 @@ pub fn execute(plan: &Plan, ctx: &mut Ctx) {
                 ctx.count("reach.adapter_get");
                 ctx.nontrivial = true;
             }
+            "MPGET" if mp_adapter.is_some() => {
+                ctx.count("reach.motion_profile_adapter_get");
+                ctx.nontrivial = true;
+            }
             "UPD" if model[s].following || (s >= 2 && (model[2].following || model[3].following)) => {
                 ctx.count("reach.update_while_following");
                 ctx.nontrivial = true;
@@ -509,6 +574,18 @@ pub fn generate(prop: &str, tier: Tier, rng: &mut Rng, seed: u64, run: u64) -> P
     };
     plan.set("t0", tval(rng));
     plan.setf("cg_init", rng.moderate_f32());
+    plan.setf("mp_dist", rng.mag_f32(1.0, 500.0));
+    plan.setf("mp_vel", rng.mag_f32(0.5, 50.0));
+    plan.setf("mp_acc", rng.mag_f32(0.5, 50.0));
+    // history times for the motion profile: around the interesting few seconds
+    let mp_t = |rng: &mut Rng| -> i64 {
+        match rng.below(4) {
+            0 => rng.range(-2_000_000_000, 0),
+            1 => rng.range(0, 5_000_000_000),
+            2 => rng.range(0, 200_000_000_000),
+            _ => 0,
+        }
+    };
     let n = rng.range(1, if tier == Tier::Quick { 24 } else { 40 });
     let fault = *rng.pick(&[0.0, 0.1, 0.25]);
     let mut uniq = 1.0f32;
@@ -568,7 +645,16 @@ pub fn generate(prop: &str, tier: Tier, rng: &mut Rng, seed: u64, run: u64) -> P
                 }
                 plan.push("HGET", &[]);
             }
-            18 => plan.push("CG", &[]),
+            18 => {
+                if rng.chance(0.5) {
+                    plan.push("CG", &[]);
+                } else {
+                    if rng.chance(0.4) {
+                        plan.push("MPNEW", &[rng.below(4) as i64, mp_t(rng)]);
+                    }
+                    plan.push("MPGET", &[]);
+                }
+            }
             _ => plan.push("TG", &[]),
         }
     }
